@@ -2384,6 +2384,9 @@ namespace Clipper2Lib {
   {
     if (BuildIntersectList(top_y))
     {
+#ifdef CLIPPER2_VERIF
+      verif::scanbeam_top_y = top_y;
+#endif
       ProcessIntersectList();
       intersect_nodes_.clear();
     }
@@ -2508,8 +2511,9 @@ namespace Clipper2Lib {
 #ifdef CLIPPER2_VERIF
       if (verif::intersect_fn)
       {
-        const long long v[11] = { node.edge1->bot.x, node.edge1->bot.y, node.edge1->top.x, node.edge1->top.y,
-          node.edge2->bot.x, node.edge2->bot.y, node.edge2->top.x, node.edge2->top.y, node.pt.x, node.pt.y, bot_y_ };
+        const long long v[12] = { node.edge1->bot.x, node.edge1->bot.y, node.edge1->top.x, node.edge1->top.y,
+          node.edge2->bot.x, node.edge2->bot.y, node.edge2->top.x, node.edge2->top.y, node.pt.x, node.pt.y, bot_y_,
+          verif::scanbeam_top_y };
         verif::intersect_fn(v);
       }
 #endif
